@@ -659,3 +659,30 @@ func init() {
 		c.Expect(3, n, "writeHeadBlock call sites behind the parent test")
 	})
 }
+
+func init() {
+	extendProp("C24", "Cross-table alignment never truncates a table below its own tail: in Freezer.repair every truncateHead(head) lies behind the outcome `table.itemHidden <= head` (a table whose tail is above the common head is restarted instead).", nil, func(c *Ctx) {
+		c.Rule("DOM/C24.headabovetail")
+		rdb := "core/rawdb"
+		f := c.Fn(rdb, "(*Freezer).repair")
+		if f == nil {
+			return
+		}
+		hidden := func(v ssa.Value) bool {
+			v = stripConv(v)
+			call, ok := v.(*ssa.Call)
+			if !ok || len(call.Call.Args) != 1 {
+				return false
+			}
+			cal := call.Call.StaticCallee()
+			if cal == nil || cal.Name() != "Load" {
+				return false
+			}
+			fa, ok := call.Call.Args[0].(*ssa.FieldAddr)
+			return ok && fieldAddrName(fa) == rdb+".freezerTable.itemHidden"
+		}
+		th := c.Calls(f, "(*"+rdb+".freezerTable).truncateHead")
+		c.Expect(1, len(th), "truncateHead calls in Freezer.repair")
+		c.Dom("tail-not-above-head", f, th, "table.truncateHead(head)", GCond("table.itemHidden.Load() <= head", f, Cmp(hidden, token.LEQ, Any())))
+	})
+}
